@@ -231,6 +231,26 @@ control("C13", "Array validation sorts the stored values",
         [(AR, "                if len(values) > 0:\n                    if isinstance(values[0], tuple):", "                if len(values) > 0:\n                    self._value.sort()\n                    if isinstance(values[0], tuple):")], "C13.R2")
 control("C13", "a copy inherits the cached validity verdict through a non-self store",
         [(AR, "        return AbstractValueWithQuantityObject.CreateCopy(\n            self, value=values, unit=unit, category=category, **kwargs\n        )", "        ret = AbstractValueWithQuantityObject.CreateCopy(\n            self, value=values, unit=unit, category=category, **kwargs\n        )\n        ret._is_valid = self._is_valid\n        return ret")], "C13.R1")
+# ------------------------------------------------------------------------------------------ C11
+control("C11", "CheckValues dropped from the gate",
+        [(FA, "        self.CheckValues(values, dimension)\n", "")], "C11.R1")
+control("C11", "minimum-dimension test only for an explicit dimension",
+        [(FA, "        if dimension < 2:\n            raise ValueError(\"Dimension MUST be 2 or more\")\n        self._dimension = dimension\n        if values is None:", "        self._dimension = dimension\n        if values is None:"),
+         (FA, "        elif hasattr(self, \"_dimension\"):", "        elif dimension < 2:\n            raise ValueError(\"Dimension MUST be 2 or more\")\n        elif hasattr(self, \"_dimension\"):")], "C11.R1")
+control("C11", "CreateCopy stops forwarding the dimension",
+        [(FA, "            self, values=values, unit=unit, category=category, dimension=self._dimension, **kwargs", "            self, values=values, unit=unit, category=category, **kwargs")], "C11.R2")
+control("C11", "SetImage stores before checking",
+        [(CU, "        self._CheckImageAndDomainLength(image, self._domain)\n        self._image = image", "        self._image = image\n        self._CheckImageAndDomainLength(image, self._domain)")], "C11.R4")
+control("C11", "SetDomain checks the old domain",
+        [(CU, "        self._CheckImageAndDomainLength(self._image, domain)\n        self._domain = domain", "        self._CheckImageAndDomainLength(self._image, self._domain)\n        self._domain = domain")], "C11.R4")
+control("C11", "length check skipped for empty arrays",
+        [(CU, "        image_length = len(image.GetValues())\n        domain_length = len(domain.GetValues())\n", "        image_length = len(image.GetValues())\n        domain_length = len(domain.GetValues())\n        if image_length == 0 or domain_length == 0:\n            return\n")], "C11.R4")
+control("C11", "a helper writes _dimension",
+        [(FA, "    def GetDimension(self) -> int:\n        return self._dimension", "    def GetDimension(self) -> int:\n        self._dimension = len(self._value)\n        return self._dimension")], "C11.R1")
+control("C11", "ChangingIndex mixes units",
+        [(FA, "        values[index] = scalar.GetValue(quantity.GetUnit())", "        values[index] = scalar.GetValue(self.GetUnit())")], "C11.R3")
+control("C11", "CheckValues accepts longer containers",
+        [(FA, "        if len(values) != dimension:\n            msg", "        if len(values) < dimension:\n            msg")], "C11.R1")
 # ------------------------------------------------------------------------------------------ running
 def _apply(edits):
     overlay = {}
